@@ -257,6 +257,30 @@ func cliCase(o *kit.Out, r *kit.Rand, idx int) {
 			}
 		}
 	}
+	if r.Chance(25) {
+		// the ends of the option ranges: a share tolerance of 100 (or 99) percent, a count tolerance
+		// equal to (one less / one more than) the iteration limit, alone and together
+		switch r.Intn(4) {
+		case 0:
+			mr, mf = kit.Pick(r, 100, 100, 99), 0
+		case 1:
+			mr, mf = 0, int(n+kit.Pick(r, int64(0), 0, -1, 1))
+		case 2:
+			mr, mf = 100, int(n+kit.Pick(r, int64(0), 0, -1, 1))
+		default:
+			mr, mf = kit.Pick(r, 100, 99), int(kit.Pick(r, int64(1), n))
+		}
+		if mf < 0 {
+			mf = 0
+		}
+		if f == 0 {
+			f = kit.Pick(r, int64(1), n, n/2+1)
+			if f > n {
+				f = n
+			}
+		}
+		o.Count("cli", "tolerance at the end of its range")
+	}
 	setupFails := r.Chance(10)
 
 	var started atomic.Int64
